@@ -144,3 +144,12 @@ Example maint_nonvacuous :
   let s := run nat [MCreate nat 1 7; MCreate nat 2 8; MIndex nat; MUpdate nat 1 9; MDelete nat 2; MCreate nat 3 8] in
   indexed nat s = true /\ lookup_index nat (fun v => Nat.eqb v 8) s = [3] /\ map fst (entries nat s) = [3; 1].
 Proof. vm_compute. repeat split. Qed.
+
+(* building the index from the documents its creator may read (the pinned indexExistingDocs on a collection under
+   access control) breaks it as well: the other documents exist and have no entry *)
+Example index_built_from_callers_view_refuted :
+  let s := run nat [MCreate nat 1 7; MCreate nat 2 8] in
+  let may_read := fun id => Nat.eqb id 1 in
+  let bad := mkI nat (live nat s) (filter (fun e => may_read (fst e)) (live nat s)) true in
+  ~ Inv nat bad /\ lookup_index nat (fun v => Nat.eqb v 8) bad <> lookup_scan nat (fun v => Nat.eqb v 8) bad.
+Proof. cbn. split; [intros [_ E]; discriminate | discriminate]. Qed.
